@@ -9,3 +9,5 @@ def generate():
     extract_meta.generate()
     from . import extract_log, extract_statics
     extract_statics.generate()
+    from . import extract_errors
+    extract_errors.generate()
